@@ -38,6 +38,8 @@ type fnSpec struct {
 	subst        map[string]string // rendered Go expression -> oracle parameter
 	state        []stateField
 	effects      bool
+	consts       map[string]string // package-level constants the function names (checked against the source)
+	typeMap      map[string]string // Go struct name -> schema name, where this function needs a different view
 	loop         bool // translate one iteration of the receive loop inside the function (see translate)
 	uses         map[string]bool // translated functions this one calls (filled while translating)
 }
@@ -52,6 +54,26 @@ func (f *fnSpec) isState(r string) bool {
 }
 
 var specs = []fnSpec{
+	{
+		file: "fluent/fluent.go", goName: "entriesToModifyRequest", callAs: "g.entriesToModifyRequest", leanName: "entriesToModifyRequest",
+		params: []param{
+			{goName: "op", goType: "spb.AFTOperation_Operation", lean: "op", kd: kEnum},
+			// each entry is represented by what its OpProto() returns (nil = it fails)
+			{goName: "entries", goType: "[]GRIBIEntry", lean: "entries", kd: kind{k: "list", s: "AFTOperation", optElems: true}},
+		},
+		goRets: "*spb.ModifyRequest, error", rets: []string{"ptr:ModifyRequestF", "err"},
+		oracleParams: []param{
+			{goName: "§parent", lean: "parent", kd: kPtr("Unit")},
+			{goName: "§conn", lean: "conn", kd: kPtr("gRIBIConnection")},
+			{goName: "§curElec", lean: "curElec", kd: kPtr("Uint128")},
+			{goName: "§opErr", lean: "opErr", kd: kind{k: "statusval"}},
+		},
+		oracles: map[string]oracle{"*.OpProto": {results: []string{"@self", "§opErr"}, errOf: true}},
+		subst:   map[string]string{"g.parent": "§parent", "g.parent.connection": "§conn", "g.parent.currentElectionID": "§curElec"},
+		state:   []stateField{{goExpr: "g.parent.opCount", lean: "opCount", kd: kNat}},
+		consts:  map[string]string{"ElectedPrimaryClient": "2"},
+		typeMap: map[string]string{"ModifyRequest": "ModifyRequestF"},
+	},
 	{
 		file: "server/server.go", goName: "isNewMaster", callAs: "isNewMaster", leanName: "isNewMaster",
 		params: []param{
